@@ -1064,7 +1064,7 @@ class Interp(object):
                     return self.eval(c.class_attrs[attr], st, Frame(c.module, c.qualname))
             if ('setup_obj', ref.addr) in st.tags and self._init_assigns(ci, attr):
                 # the object was built by a contract set-up that predates this attribute (__init__ assigns it)
-                raise Unsupported("contract set-up out of date: %s.__init__ assigns attribute %r which the set-up object lacks" % (ci.qualname, attr))
+                raise Unsupported("contract set-up out of date: %s assigns attribute %r somewhere, and the set-up object lacks it" % (ci.qualname, attr))
             for c in self.repo.mro(ci):
                 if '__getattr__' in c.methods:
                     return self.call_repo(c.qualname + '.__getattr__', c.methods['__getattr__'], c.module, c,
@@ -1073,14 +1073,14 @@ class Interp(object):
         raise Raised('AttributeError', attr)
 
     def _init_assigns(self, ci, attr):
+        # any method of the class (constructor, setter, lazily filled cache ...) stores self.<attr>: an object
+        # built by the real code may carry it, the set-up object does not say
         for c in self.repo.mro(ci):
-            init = c.methods.get('__init__')
-            if init is None:
-                continue
-            for node in ast.walk(init):
-                if isinstance(node, ast.Attribute) and isinstance(node.ctx, ast.Store) and node.attr == attr \
-                        and isinstance(node.value, ast.Name) and node.value.id == 'self':
-                    return True
+            for node in ast.walk(c.node):
+                if True:
+                    if isinstance(node, ast.Attribute) and isinstance(node.ctx, ast.Store) and node.attr == attr \
+                            and isinstance(node.value, ast.Name) and node.value.id == 'self':
+                        return True
         return False
 
     def set_attribute(self, obj, attr, val, st, fr):
